@@ -2,6 +2,8 @@ package memo
 
 import (
 	"sync/atomic"
+
+	"github.com/aperturerobotics/util/verifhook"
 )
 
 // MemoizeFunc memoizes the given function.
@@ -12,6 +14,7 @@ func MemoizeFunc[T any](fn func() (T, error)) func() (T, error) {
 	var doneErr error
 	return func() (T, error) {
 		if !started.Swap(true) {
+			verifhook.Point("yield-memo", done)
 			defer close(done)
 			result, doneErr = fn()
 			return result, doneErr
